@@ -694,25 +694,42 @@ func checkSubnetMatch(p *Prog, r *Report) {
 			if isNilConst(rv) {
 				continue
 			}
-			a, isA := rv.(*ssa.Alloc)
-			if !isA || !a.Heap {
-				okE, whyE = false, "the returned interface is not a fresh copy of the matching element"
-				continue
-			}
-			// the copy is made in this iteration (its store is on the segment) and the match call used it
-			stored := false
-			for _, e := range s.Events {
-				if e.Kind == EvStore && e.Addr == ssa.Value(a) {
-					stored = true
-				}
-			}
 			var mc *Event
 			for _, e := range s.Events {
 				if e.Kind == EvCall && StaticCallee(e.Call) == match {
 					mc = e
 				}
 			}
-			if !stored || mc == nil || mc.Call.Args[0] != ssa.Value(a) {
+			a, isA := rv.(*ssa.Alloc)
+			stored := false
+			if ia, isIA := rv.(*ssa.IndexAddr); isIA && !isA {
+				// a pointer to the element itself, in the slice this call got from net.Interfaces() (a fresh
+				// slice per call, so the element is not shared and not an iteration variable)
+				fromList := false
+				for _, o := range p.Origins(s.Resolve(ia.X)) {
+					if ex, isEx := o.(*ssa.Extract); isEx && ex.Index == 0 {
+						if c, isC := ex.Tuple.(*ssa.Call); isC && calleeFull(&c.Call) == "net.Interfaces" {
+							fromList = true
+						}
+					}
+				}
+				if !fromList || mc == nil || s.Resolve(mc.Call.Args[0]) != rv {
+					okE, whyE = false, "the returned interface is not the one whose networks matched"
+					continue
+				}
+				stored = true
+			} else if !isA || !a.Heap {
+				okE, whyE = false, "the returned interface is not a fresh copy of the matching element"
+				continue
+			} else {
+				// the copy is made in this iteration (its store is on the segment) and the match call used it
+				for _, e := range s.Events {
+					if e.Kind == EvStore && e.Addr == ssa.Value(a) {
+						stored = true
+					}
+				}
+			}
+			if !stored || mc == nil || (isA && mc.Call.Args[0] != ssa.Value(a)) {
 				okE, whyE = false, "the returned interface is not the one whose networks matched"
 				continue
 			}
